@@ -160,7 +160,18 @@ def build(ctx):
     ins["missing"] = list(ins["missing"]) + omiss
     ov = work / "overlay.json"
     ov.write_text(json.dumps({"Replace": ins["overlay"]}))
-    hdir = vcheck.harness_dir(ctx, extra_replace=ins["replaces"], name="harness-t2sv")
+    hdir = None
+    for attempt in range(4):     # the copy races with other packages writing scratch files under /verif/harness: retry
+        try:
+            hdir = vcheck.harness_dir(ctx, extra_replace=ins["replaces"], name="harness-t2sv")
+            break
+        except (OSError, shutil.Error) as ex:
+            log = "copy of /verif/harness failed: %r" % (ex,)
+            time.sleep(0.5 * (attempt + 1))
+    if hdir is None:
+        b = dict(ok=False, why="harness-copy", log=log, instr=ins)
+        ctx._t2sv_build = b
+        return b
     test_bin = work / "svsched.test"
     rc, out = vcheck.go_test_build(ctx, hdir, "./svsched", test_bin, overlay=ov, timeout=600)
     if rc != 0 or not test_bin.exists():
@@ -841,6 +852,171 @@ def judge_predicates(prop, sid, t, tps):
     return viol, known
 
 
+ALL_LABELS = ["VMgrTry", "VMgrLock", "VWait", "VWoken", "VSessAdd", "VTmAdd", "VTmRemove", "VMgrUnlock", "VSessRemove", "VTmReset", "VCbUnlock",
+              "VCbSessRemove", "VCbTmRemove", "VDsFlag", "VDsNoClear", "VDsDestroy", "VDsTmRemove", "VDsUnlock", "VShFlag", "VShNet", "VShTimers",
+              "VShMgr", "VFin", "VEnd"]       # spc_label of Model/Sv.v
+
+
+def _obs_list_term(run, S, E, cq):
+    """The observation list of Model/SvTrace.v as THIS file reads it off observed.txt (the Run / Block objects the Python oracles use), as a
+    Gallina term: [(item, SvObs ...); ...], one element per observation block, the item = the first item since the block before that is not
+    a forced `wake`. -> (term, noclear). Thread ids are renumbered (the predicates use them as names only)."""
+    tids = {}
+
+    def tid(t):
+        if t not in tids:
+            tids[t] = len(tids) + 1
+        return cq.natlit(tids[t])
+
+    def st(x):
+        return S.of_hex(hx(x))
+
+    def op_term(c):
+        if c["op"] in ("try", "lock"):
+            return "(%s %s %s %s %s %s)" % ("STry" if c["op"] == "try" else "SLock", st(c["sid"]), st(c["name"]), st(c["key"]), cq.zlit(c["size"]),
+                                            "None" if c["lt"] is None else "(Some %s)" % cq.zlit(c["lt"]))
+        if c["op"] == "unl":
+            return "(SUnlock %s %s)" % (st(c["name"]), st(c["key"]))
+        if c["op"] == "renew":
+            return "(SRenew %s %s %s)" % (st(c["name"]), st(c["key"]), cq.zlit(c["lt"]))
+        raise cq.Untranslatable("op %r" % (c.get("op"),))
+
+    def item_term(it):
+        k = it["kind"]
+        if k == "connect":
+            return "VConnect %s" % st(it["sid"])
+        if k == "connend":
+            return "VConnEnd %s" % st(it["sid"])
+        if k == "call":
+            return "VCall %s %s" % (tid(it["tid"]), op_term(it))
+        if k in ("run", "wake"):
+            return "VRun %s" % tid(it["tid"])
+        if k == "cancel":
+            return "VCancel %s %s" % (tid(it["tid"]), E.ctor(it["err"]))
+        if k == "tick":
+            return "VTick %s" % cq.zlit(it["dt"])
+        if k == "signal":
+            return "VSignal"
+        raise cq.Untranslatable("item %r" % (it.get("raw"),))
+
+    def ces(l):
+        return "[%s]" % "; ".join("Clock %s %s %s" % (st(n), st(k), cq.zlit(z)) for (n, k, z) in l)
+
+    calls = run.calls()
+    kinds = {}
+    out = []
+    prev_k = -1
+    items = sorted(run.items, key=lambda x: x[0])
+    for b in run.blocks:
+        group = [(k, it) for (k, _tag, it) in items if prev_k < k <= b.k]
+        prev_k = b.k
+        for _k, it in group:
+            for t_, kind, a_, b_ in it.get("spawn", []):
+                kinds.setdefault(t_, (kind, a_, b_))
+        main = [it for _k, it in group if it["kind"] != "wake"]
+        if not main:
+            continue
+        for t_, v_ in run.sys.items():
+            kinds[t_] = v_
+        thr = []
+        for t_, stt in b.thr.items():
+            if t_ in calls:
+                kind = "OkCall %s" % op_term(calls[t_])
+            elif t_ in kinds:
+                kd, a_, b_ = kinds[t_]
+                kind = {"x": "OkExp %s %s" % (st(a_), st(b_)), "d": "OkDs %s" % st(a_), "s": "OkSh"}.get(kd)
+                if kind is None:
+                    continue
+            else:
+                continue
+            if stt[0] == "P":
+                s_ = "OsP %s" % cq.natlit(ALL_LABELS.index(stt[1]) if stt[1] in ALL_LABELS else 99)
+            elif stt[0] == "B":
+                s_ = "OsB"
+            elif stt[0] == "F":
+                s_ = "OsF (SResp %s %s)" % ("true" if stt[1] == "1" else "false", E.opt(stt[2]))
+            else:
+                s_ = "OsE"
+            thr.append("(%s, OThr (%s) (%s))" % (tid(t_), kind, s_))
+        tab = "[%s]" % "; ".join("(%s, (%s, [%s]))" % (st(n), cq.zlit(z), "; ".join(st(k) for k in ks)) for n, (z, ks) in b.tab.items())
+        tmr = "[%s]" % "; ".join("(%s, %s)" % (st(n), st(k)) for (n, k) in sorted(b.tmr))
+        ses = "[%s]" % "; ".join("(%s, %s)" % (st(sd), ces(l)) for sd, l in b.ses.items())
+        fil = "None" if b.file is None else "(Some [%s])" % "; ".join("(%s, %s)" % (st(sd), ces(l)) for sd, l in b.file.items())
+        out.append("(%s, SvObs [%s] %s %s %s %s %s)" % (item_term(main[0]), "; ".join(thr), tab, tmr, ses, ces(b.lst), fil))
+    return "[%s]" % ";\n  ".join(out), run.noclear
+
+
+def sv_trace_sample(ctx, dirs, k=None):
+    """Extraction + driver vs the Gallina definitions, for the trace predicates (same idea as lib/coqeval.py): on a seeded sample of the real
+    runs `sv_trace_verdict` (Model/SvTrace.v) is evaluated INSIDE Coq (Eval vm_compute) on the observation list as THIS file reads it off
+    observed.txt (the Run objects the Python oracles use) and compared with what `svdriver trace` printed (extracted code on the list as
+    the OCaml driver reads it). Schedules on which a predicate is false are sampled first."""
+    import random
+    from . import coqeval as cq
+    miss = cq.models_built(["Model/Base.v", "Model/Err.v", "Model/Sv.v", "Model/SvTrace.v"])
+    if miss:
+        return dict(sampled=0, compared=0, disagreements=[], skipped=miss)
+    k = k if k is not None else (12 if ctx.tier == "quick" else 200)
+    cands = []
+    for d in dirs:
+        tv = Path(d) / "trace_verdict.txt"
+        if not tv.exists():
+            continue
+        verdicts = {}
+        for line in tv.read_text().splitlines():
+            f = line.split()
+            if len(f) >= 15 and f[0] == "Q":
+                kv = dict(x.split("=", 1) for x in f[3:])
+                verdicts[f[1]] = [None if kv.get(p_, "-") == "-" else int(kv[p_].split("@")[0]) for p_ in PRED_ORDER]
+        druns = parse_observed(Path(d) / "observed.txt")
+        for sid in sorted(verdicts):
+            if sid in druns and druns[sid].blocks:
+                cands.append((str(d), sid, verdicts[sid], druns[sid]))
+    rng = random.Random("%d/svtrace/%s" % (int(ctx.seed), ctx.prop))
+    flagged = [c for c in cands if any(v is not None for v in c[2])]
+    rest = [c for c in cands if c not in flagged]
+    rng.shuffle(flagged)
+    rng.shuffle(rest)
+    chosen = (flagged[:max(1, k // 2)] + rest)[:k]
+    if not chosen:
+        return dict(sampled=0, compared=0, disagreements=[], skipped="no observation list to sample")
+    S, E = cq.Strs(), cq.Errs()
+    body, used = [], []
+    for d, sid, verdict, run in chosen:
+        try:
+            term, noclear = _obs_list_term(run, S, E, cq)
+            body.append("Eval vm_compute in (sv_trace_verdict %s\n [%s])." % ("true" if noclear else "false", term[1:-1]))
+            used.append((d, sid, verdict))
+        except (cq.Untranslatable, ValueError, KeyError, IndexError):
+            continue
+    wd = ctx.work / "coqeval" / "svtrace"
+    shutil.rmtree(wd, ignore_errors=True)
+    wd.mkdir(parents=True)
+    f = wd / "cases.v"
+    f.write_text("From Ldlm Require Import Model.Base Model.Err Model.Sv Model.SvTrace.\nLocal Open Scope Z_scope.\n" + cq.PRINT_OPTS + "\n".join(S.defs) + "\n"
+                 + "\n".join(body) + "\n")
+    res, secs = cq.run_coqc(ctx, [f])
+    rc, out = res[0]
+    if rc != 0:
+        return dict(sampled=len(used), compared=0, disagreements=[dict(trace=used[0][1] if used else "?", what="coqc failed on the generated cases: " + out[-400:])],
+                    coqc_s=round(secs, 2), cases_file=str(f))
+    terms = cq.split_evals(out)
+    dis, compared = [], 0
+    if len(terms) != len(used):
+        dis.append(dict(trace="*", what="%d Eval results for %d cases" % (len(terms), len(used))))
+    for (d, sid, verdict), t in zip(used, terms):
+        try:
+            got = [None if x is None else x.v for x in cq.parse_term(t)]
+        except Exception as ex:  # noqa
+            dis.append(dict(trace=sid, what="unreadable Coq value: %r" % (ex,)))
+            continue
+        compared += len(got)
+        if got != verdict:
+            dis.append(dict(trace=sid, dir=d, what="sv_trace_verdict %r: Coq %r, extracted driver %r" % (PRED_ORDER, got, verdict)))
+    return dict(sampled=len(used), compared=compared, disagreements=dis, coqc_s=round(secs, 2), cases_file=str(f),
+                sampled_with_a_false_predicate=sum(1 for _d, _s, v in used if any(x is not None for x in v)))
+
+
 # ------------------------------------------------------------------------------------------------------- helpers
 
 def _acquirers(run):
@@ -872,7 +1048,9 @@ def _mgr_shut_at(run):
 
 
 def _expiry_pending(run, b, name, key):
-    return [t for t, nk in _callbacks(run).items() if nk == (name, key) and b.thr.get(t) == ("P", "VCbUnlock")]
+    """lease callbacks of (name,key) that exist and have not returned in block b (parked at ANY of their yield points: read off the real
+    goroutines, whatever order the tree under test gives the callback's steps)"""
+    return [t for t, nk in _callbacks(run).items() if nk == (name, key) and b.thr.get(t, ("?",))[0] == "P"]
 
 
 def _owner_sid(run, name, key):
@@ -908,9 +1086,14 @@ def oracle_C05(run, images=None):
                                 % (tid, name, key, b.tab.get(name)), None))
                 else:
                     for t in pend:
-                        nxt = [k for (k, t2, lab) in steps if t2 == t and k > b.k]
+                        # the callback frees the hold with its next step when it is parked in front of its unlock, and in any case before it returns
+                        nxt = [k for (k, t2, lab) in steps if t2 == t and k > b.k and b.thr.get(t) == ("P", "VCbUnlock")]
+                        k_end = run.ended_at(t)
                         if nxt and run.block_at(nxt[0]).in_table(name, key):
                             bad.append((nxt[0], "the expiry pending when t%d's Unlock(%r,%r) answered unlocked=true did not release the hold with its next step" % (tid, name, key), None))
+                        elif k_end is not None and k_end > b.k and run.block_at(k_end).in_table(name, key):
+                            bad.append((k_end, "the expiry callback (goroutine %d, parked at %s when t%d's Unlock(%r,%r) answered unlocked=true) has returned and the hold still "
+                                               "occupies the lock (table %r)" % (t, b.thr[t][1], tid, name, key, run.block_at(k_end).tab.get(name)), None))
             if all_done and final.k > c["k_fin"] and final.in_table(name, key) and final.k < shut_k:
                 bad.append((final.k, "everything has finished and the hold (%r,%r), reported released by t%d's Unlock, still occupies the lock" % (name, key, tid), None))
         elif c["op"] == "renew":
@@ -1445,6 +1628,7 @@ def run_property(ctx, prop, tier=None, scenarios=None, procs=8):
     try:
         from . import coqeval
         coqeval.hook(ctx, "T2-svsched", coqeval.sv_sample, cq_dirs)
+        coqeval.hook(ctx, "T2-svsched-trace-predicates", sv_trace_sample, cq_dirs)
     except Exception as ex:  # noqa
         ctx.note("coq/driver tie T2-svsched not run: %r" % (ex,))
     return dict(ok_build=True, runs=runs, chk=chk, judged=j, failures=failures, stats=gstats, reached=reached, instr=ins, images=images)
